@@ -342,14 +342,20 @@ func checkC16(p *Prog, r *Report) {
 	} else {
 		rName.Bad(fnName(fp)+":func-name", fp.Pos(), "the function name is not the file's base name without its extension")
 	}
-	/* Returned bytes come from a buffer allocated here. */
+	checkResultFresh(r, rName, "C16.naming-and-buffers", fp)
+}
+
+// checkResultFresh: what the filter returns on success was rendered into a
+// buffer allocated in this call (not a package-level buffer or cache).
+func checkResultFresh(r *Report, rName *Rule, ruleID string, fp *ssa.Function) {
+	nbad := 0
 	eachInstr(fp, func(i ssa.Instruction) {
 		ret, ok := i.(*ssa.Return)
 		if !ok || !isNilConst(retVal(ret, 1)) {
 			return
 		}
 		for _, x := range valueRoots(retVal(ret, 0), func(n string) bool {
-			return "(*bytes.Buffer).Bytes" == n || "fmt.Sprintf" == n || "fmt.Appendf" == n || "fmt.Append" == n || "fmt.Appendln" == n
+			return "(*bytes.Buffer).Bytes" == n || "fmt.Sprintf" == n || "fmt.Appendf" == n || "fmt.Append" == n || "fmt.Appendln" == n || "bytes.Clone" == n || "slices.Clone" == n
 		}) {
 			switch x.Kind {
 			case "alloc", "const", "param":
@@ -357,13 +363,23 @@ func checkC16(p *Prog, r *Report) {
 				if "path/filepath.Base" == x.Callee || "path/filepath.Ext" == x.Callee || "strings.TrimSuffix" == x.Callee {
 					continue
 				}
+				nbad++
 				rName.Bad(fnName(fp)+":result-buffer", posOf(ret), "the returned bytes belong to %s, not to a buffer allocated for this call: a later or concurrent conversion can overwrite them", x)
 			default:
-				rName.Bad(fnName(fp)+":result-buffer", posOf(ret), "the returned bytes derive from %s", x)
+				nbad++
+				what := x.String()
+				if ex, isEx := x.V.(*ssa.Extract); isEx {
+					if _, isLk := ex.Tuple.(*ssa.Lookup); isLk {
+						what = "an entry of a map kept between calls (a cache)"
+					}
+				} else if _, isLk := x.V.(*ssa.Lookup); isLk {
+					what = "an entry of a map kept between calls (a cache)"
+				}
+				rName.Bad(fnName(fp)+":result-buffer", posOf(ret), "the returned bytes derive from %s, not from what this call read and rendered", what)
 			}
 		}
 	})
-	if 0 == len(filterObs(r, "C16.naming-and-buffers", Refuted)) {
+	if 0 == nbad {
 		rName.OK(fnName(fp)+":result-buffer", fp.Pos(), "results are rendered into buffers allocated in this call")
 	}
 }
